@@ -9,8 +9,9 @@ V = os.path.dirname(os.path.dirname(os.path.abspath(__file__)))
 # pid -> (level category, technique, level text, level note, design section)
 CHECKS = {
     "C20": ("exploration", "bounded exhaustive enumeration of short strings and colliding tuples through the real derivation code",
-            "Every string of length <=4 (thorough <=5) over a 9-symbol alphabet plus the keyword table goes through each name-derivation "
-            "function; every colliding pair / invented-suffix triple of short strings is placed in each namespace through the real "
+            "Every string of length <=4 (thorough <=5) over an 11-symbol alphabet plus the keyword table goes through each name-derivation "
+            "function; every colliding pair / invented-suffix triple of short strings is placed in each namespace (properties, parameters, schemas, enum members, "
+            "operationIds of one client - untagged and under several spellings of its tag -, tag spellings deriving one module) through the real "
             "generator and read back with ast. Exhaustive within the bound; right level because the counterexamples are short, specific strings.",
             "Trusts CPython's str.isidentifier/keyword tables and ast/compile as the judge of identifiers; strings outside the alphabet/length bound are not covered.",
             "4 C20"),
@@ -51,12 +52,14 @@ CHECKS = {
             "4 C01"),
     "C12": ("exploration", "bounded exhaustive enumeration of generated packages; static scan of every import statement + import under a generator blocker + byte comparison of runtime files",
             "For every package of the bounded space (layouts x documents, field packs, operation packs, schema graphs - reaching wrapper classes, discriminators, mocks, "
-            "streaming templates) every Import/ImportFrom node at any depth is classified, every module is imported where the generator is not importable, and every core "
+            "streaming templates - plus histories: stale runtime files before a forced regeneration, the same output package generated twice in one process with two core layouts; "
+            "every case in a forked process of its own so that generator globals carry history only inside a case) "
+            "every Import/ImportFrom node at any depth is classified, every module is imported where the generator is not importable, and every core "
             "runtime module is compared byte for byte with the file shipped in the generator.",
             "Allowed roots: stdlib of the running interpreter, httpx, cattrs/attrs, typing_extensions, the package, its core, their ancestors.",
             "4 C12"),
     "C13": ("exploration", "bounded exhaustive enumeration of operation-shape pairs x tag patterns; introspective comparison of client / Protocol / mock in the runtime-only interpreter",
-            "Every ordered pair of 7 operation shapes (plain, optional params, overloads, byte stream, SSE, long wrapped signature, body+params) x 9 tag patterns is generated, "
+            "Every ordered pair of 9 operation shapes (plain, optional params, overloads, byte stream, SSE, long wrapped signature, body+params, json+stream mixes) x 17 tag patterns is generated, "
             "imported and compared by inspect.signature (names, order, kinds, defaults, annotation text, return), call nature, isinstance against the runtime_checkable Protocol, "
             "NotImplementedError behaviour of every mock method and tag-property parity of MockAPIClient.",
             "Annotation equality is textual; documents with more than 3 operations are outside the bound.",
@@ -81,7 +84,7 @@ CHECKS = {
             "Instance menus have 1-3 bodies per content kind; streams 1 and 3 items x 3 chunkings; harness-side re-serialisation defines equality.",
             "4 C05"),
     "C06": ("exploration", "exhaustive status sweep: every declared-response set of size<=3 x every status 100..599 outside 2xx x 2 transports, driven through generated methods",
-            "For each of the 84 declared-response sets over {200,204,302,404,422,500,default,default+content} the generated method is called once per non-2xx status 100..599 (400 "
+            "For each declared-response set of size<=3 over {200,204,302,404,422,499,500,520,default,default+content}, built inline and through components/responses $refs, the generated method is called once per non-2xx status 100..599 (400 "
             "statuses) through the bundled HttpxTransport and through a custom transport that returns responses unraised; each call must raise an instance of the package's HTTPError "
             "carrying the status and the response, ClientError for 4xx and ServerError for 5xx. The status dimension is covered completely.",
             "The server body is one fixed JSON object; operations whose package cannot be imported are reported under an `unimportable` clause.",
@@ -115,8 +118,8 @@ CHECKS = {
             "Header names differing only in case: only presence of the highest-precedence value is demanded. Plugins are the bundled ones with fixed constructor arguments.",
             "4 C17"),
     "C11": ("model_checking", "explicit-state breadth-first search over generation histories with the real generator as transition function (state = project tree, canonicalised; fixpoint or depth bound), invariant = every generated client still imports",
-            "For each of 5 shared-core layouts (top-level, one, two and three packages deep, vendor-prefixed names) the state graph of histories gen(client, spec, force) is "
-            "explored breadth first: each transition copies the source state's project tree and runs the real generator; states are canonicalised to (client -> last spec, "
+            "For each of 6 shared-core layouts (top-level, one, two and three packages deep, vendor-prefixed names, core owned by the first client) the state graph of histories gen(client, spec, force) is "
+            "explored breadth first: each transition copies the source state's project tree and runs the real generator in a process of its own (level-synchronous search, results merged in task order); states are canonicalised to (client -> last spec, "
             "exception classes in the core, registry contents) and deduplicated; quick runs to fixpoint for 2 clients, thorough to depth 4 for 3 clients x 4 specs. In every newly "
             "reached state every client generated so far is imported in the runtime-only interpreter (every symbol it takes from the core must exist).",
             "Canonicalisation argument: importability depends only on the canonical state because the copied runtime files are identical in every generation; imports are "
@@ -139,7 +142,7 @@ CHECKS = {
             "Hash seed, process history, wall clock and output root are the owned nondeterminism sources; id()-derived names are covered through fresh-vs-warm processes.",
             "4 C09"),
     "C15": ("exploration", "complete position x payload matrix through the real generator; AST-skeleton comparison against the benign twin + evaluation of meaning-carrying literals",
-            "Every one of 27 text-bearing positions of a reference document x every payload of a 31-entry hostile dictionary (quotes, triple quotes, backslashes, line "
+            "Every one of 30 text-bearing positions of a reference document x every payload of a 38-entry hostile dictionary (quotes, triple quotes, backslashes, line "
             "terminators incl. CR/NEL/LS, control characters, non-ASCII, emoji, keyword, long lines and long+special combinations) is generated; every emitted file must "
             "parse and compile, its tree of AST node types must equal that of the benign twin (class/module members and dict entries as multisets), and enum values, wire "
             "keys, parameter names, defaults and discriminator values must evaluate to exactly the original strings. Thorough adds all strings of length<=3 over 4 "
